@@ -223,7 +223,8 @@ def worker(args):
             expr = B.ex(inf["expr"]) if not has_der else B.ex(["s", "x", 0])
             if inf.get("wrap"):
                 # a non-polynomial constraint: no Bernstein certificate exists, must be rejected
-                expr = {"sin": ca.sin, "exp": ca.exp, "inv": lambda e: 1 / (2 + e * e), "sqrt": lambda e: ca.sqrt(e * e + 1)}[inf["wrap"]](expr)
+                expr = {"sin": ca.sin, "exp": ca.exp, "inv": lambda e: 1 / (2 + e * e), "sqrt": lambda e: ca.sqrt(e * e + 1),
+                        "time": lambda e: e + 0.4 * ocp.t, "step": lambda e: e + 0.4 * ocp.DT}[inf["wrap"]](expr)
             pb = B.S["p"][0]
             rel = (lambda a, b: a >= b) if lower else (lambda a, b: a <= b)
             if inf.get("wrap") or case["method"].get("intg") == "expl_euler" or \
@@ -471,7 +472,7 @@ def run(tier="quick", seed=0, jobs=16):
         if deg:
             c["method"]["degree"] = deg
         rej.append((c, [gen.gen_point(rng, c)]))
-    for w, kind in (("sin", "MS"), ("exp", "SS"), ("inv", "DC"), ("sqrt", "MS")):
+    for w, kind in (("sin", "MS"), ("exp", "SS"), ("inv", "DC"), ("sqrt", "MS"), ("time", "MS"), ("time", "SS"), ("time", "DC"), ("step", "MS")):
         c = gen_case(random.Random(seed + 100 + len(rej)))
         c["method"].update({"kind": kind, "intg": "rk"})
         if kind == "DC":
@@ -485,7 +486,7 @@ def run(tier="quick", seed=0, jobs=16):
             dis.append({"property": "C15", "case": c, "points": pts,
                         "finding_key": None,
                         "what": [{"what": "a grid='inf' constraint was accepted although no sufficient condition can be produced "
-                                          "(%s)" % ("non-polynomial expression: " + c["inf"]["wrap"] if c["inf"].get("wrap")
+                                          "(%s)" % (("explicit dependence on time / the step length (the certificate would freeze it at the control node): " if c["inf"].get("wrap") in ("time", "step") else "non-polynomial expression: ") + c["inf"]["wrap"] if c["inf"].get("wrap")
                                                     else "scheme without a degree-4 step polynomial")}]})
     vcfg = [{"n": n, "kind": kd, "method": m} for n in (2, 5) for kd in ("square", "bounds", "der") for m in ("MS", "SS", "DC")]
     with mp.get_context("fork").Pool(min(jobs, len(vcfg))) as pool:
